@@ -13,7 +13,8 @@ from harness import common, par
 NETWORK_SCHEMES = ('http', 'https', 'ftp', 'ws', 'wss', 'gopher')
 DEFAULT_PORTS = {'ftp': 21, 'gopher': 70, 'http': 80, 'https': 443, 'ws': 80, 'wss': 443}
 ENCODINGS = ['utf-8', 'latin-1', 'shift_jis', 'cp1252', 'utf-16', 'ascii', 'koi8-r', 'big5',
-             'iso-8859-15', 'cp437', 'iso2022_jp', 'iso2022_kr', 'iso2022_jp_2', 'hz', 'euc_jp', 'gb18030', 'utf-7', 'cp037']
+             'iso-8859-15', 'cp437', 'iso2022_jp', 'iso2022_kr', 'iso2022_jp_2', 'hz', 'euc_jp', 'gb18030', 'utf-7', 'cp037', 'cp864',
+             'iso2022_jp', 'iso2022_jp_1', 'iso2022_jp_3', 'iso2022_jp_ext']
 
 HOST_LABELS = ['example', 'EXAMPLE', 'ExAmPlE', 'a', 'www', 'xn--nxasmq6b', 'bücher',
                'BÜCHER', '例え', 'straße', 'ａｂｃ', 'café',
@@ -23,11 +24,13 @@ HOST_LABELS = ['example', 'EXAMPLE', 'ExAmPlE', 'a', 'www', 'xn--nxasmq6b', 'bü
 HOST_DOTS = ['.', '.', '.', '。', '．', '｡']
 PATH_SEGS = ['a', 'b', 'index.html', '.', '..', '', '%2e', '%2E', '%2e%2E', '%2F', '%2f', 'a%2Fb',
              '%25', '%', '%zz', '%aF', '%Af', '%af', '%AF', '%c3%a9', '%C3%A9', 'é', '日本',
+             # text whose encoded bytes contain '%' followed by hex digits under some codecs (ISO-2022-JP katakana, cp864 U+066A)
+             'メモ帳', 'ヤユ漢字', 'ムモ', 'メ', 'ユ帳', '50\u066aab', '\u066a41', 'a\u066a',
              'a b', ' ', '~', '%7e', '%7E', ';p', 'a;b=c', '...', '.a', 'a.', '\\', 'a\\b', '"',
              '<x>', '`', '{}', '|', '^', 'a:b', '@', 'x@y', '%00', '%0a', '%0D%0A', '\x7f', '\u0080',
              '​', ' ', '퟿', '*', "'", '(', ')', '!', '$', '&', '+', ',', '=', '[', ']']
 QUERY_BITS = ['a=1', 'b', 'c=', '=d', 'a=1&a=2', 'q=a b', 'q=a+b', 'q=%20', 'x=%aF', 'x=%af', 'x=%AF',
-              'é=ü', 'x="y"', 'x=<>', 'x=`', '&', '&&', '=', 'a=b=c', 'a=%26', 'a=%3d', '?',
+              'é=ü', 'q=メモ帳', 'k=ヤユ漢', 'p=50\u066aab', 'x="y"', 'x=<>', 'x=`', '&', '&&', '=', 'a=b=c', 'a=%26', 'a=%3d', '?',
               '??', 'a/b', '/../', 'x=#', 'k=日', 'a=%', 'a=%z', '\x7f']
 USERINFOS = ['', '', '', 'user@', 'user:pw@', ':pw@', 'u%40x:p%3Aw@', 'USER@', 'a b@', 'u:@', '%aa:%bb@',
              'ü:é@', 'a:b:c@', 'u%2F:p%2f@', 'us%0Aer:p%09w@', '%00:%1f@', 'u%0d%0a:x@', '%7f:%20@', 'u%1B:p@']
